@@ -1006,6 +1006,7 @@ func (c *codegen) Visit(node ast.Node) ast.Visitor {
 			if idx, ok := n.Lhs[0].(*ast.IndexExpr); ok {
 				c.emitUpdateIndexExpr(idx, func() {
 					ast.Walk(c, n.Rhs[0])
+					c.emitShiftCountLimit(n.Tok, n.Rhs[0])
 					c.emitToken(n.Tok, c.typeOf(n.Rhs[0]))
 					// The sequence point includes an assignment sign.
 					c.saveSequencePoint(n.Lhs[0].Pos(), n.Rhs[0].Pos())
@@ -1014,6 +1015,7 @@ func (c *codegen) Visit(node ast.Node) ast.Visitor {
 			}
 			ast.Walk(c, n.Lhs[0])
 			ast.Walk(c, n.Rhs[0])
+			c.emitShiftCountLimit(n.Tok, n.Rhs[0])
 			c.emitToken(n.Tok, c.typeOf(n.Rhs[0]))
 		}
 		if isMapKeyCheck {
@@ -2187,6 +2189,7 @@ func (c *codegen) emitBinaryExpr(n *ast.BinaryExpr, needJump bool, cond bool, jm
 	default:
 		ast.Walk(c, n.X)
 		ast.Walk(c, n.Y)
+		c.emitShiftCountLimit(n.Op, n.Y)
 		typ := c.typeOf(n.X)
 		if !needJump {
 			c.emitToken(n.Op, typ)
@@ -2923,6 +2926,22 @@ func (c *codegen) convertStruct(lit *ast.CompositeLit, ptr bool) {
 	} else {
 		emit.Opcodes(c.prog.BinWriter, opcode.PACKSTRUCT)
 	}
+}
+
+// emitShiftCountLimit brings the count of a right shift (the top of the stack)
+// down to 256 when it may be bigger: Go allows any count, SHR at most 256, and
+// with 256 all the bits of an integer are shifted out already.
+func (c *codegen) emitShiftCountLimit(tok token.Token, count ast.Expr) {
+	if tok != token.SHR && tok != token.SHR_ASSIGN {
+		return
+	}
+	if tv := c.typeAndValueOf(count); tv.Value != nil {
+		if v, ok := constant.Int64Val(constant.ToInt(tv.Value)); ok && v <= 256 {
+			return
+		}
+	}
+	emit.Int(c.prog.BinWriter, 256)
+	emit.Opcodes(c.prog.BinWriter, opcode.MIN)
 }
 
 func (c *codegen) emitToken(tok token.Token, typ types.Type) {
